@@ -204,10 +204,11 @@ with print_targ (a : targ) : str :=
   | ATy t => print_tref t
   end.
 
-(** ** TL2Field.Print *)
+(** ** TL2Field.Print (since commit 2301fcd1, the repair of finding F19, the name is written as it is: `_` or `_name`
+    for an ignored field; before, every ignored field was written `_`) *)
 Definition print_field (f : field) : str :=
   (if nonempty (f_name f)
-   then (if f_ign f then [95] else f_name f) ++ (if f_opt f then [63] else []) ++ [58]
+   then f_name f ++ (if f_opt f then [63] else []) ++ [58]
    else []) ++ print_tref (f_type f).
 
 (* the comment block written before a field: every trimmed line followed by the current separator *)
